@@ -73,6 +73,24 @@ pub const FAMILIES: &[Family] = &[
     Family { name: "concat-slices", nesting: false, gen: |_, k| format!("x = (1`{}) @ (1`{}) @ (1`{})\n#d8 x`8\n", k, k, k) },
     Family { name: "data-concat-slices", nesting: false, gen: |_, k| format!("#d (1`{}) @ (1`{})\n", k, k) },
     Family { name: "le-width", nesting: false, gen: |_, k| format!("x = le(1`({} & ~7))\n#d8 x`8\n", k) },
+    // added after the libFuzzer phase of C03 met the left-recursive `#ruledef mode { {m: mode} => m }`
+    Family { name: "subrule-cycle", nesting: true, gen: |n, _| {
+        let mut s = String::new();
+        for k in 0..n {
+            s.push_str(&format!("#subruledef rr{}\n{{\n    {{m: rr{}}} => m\n}}\n", k, (k + 1) % n));
+        }
+        s.push_str("#ruledef\n{\n    ld {x: rr0} => x\n}\nld 5\n");
+        s
+    } },
+    Family { name: "subrule-chain", nesting: true, gen: |n, _| {
+        let mut s = String::new();
+        for k in 0..n {
+            s.push_str(&format!("#subruledef rr{}\n{{\n    {{m: rr{}}} => m\n}}\n", k, k + 1));
+        }
+        s.push_str(&format!("#subruledef rr{}\n{{\n    {{v: u8}} => v\n}}\n#ruledef\n{{\n    ld {{x: rr0}} => x\n}}\nld 5\n", n));
+        s
+    } },
+    Family { name: "subrule-self-in-ruledef", nesting: true, gen: |n, _| format!("#ruledef mode\n{{\n    {{m: mode}} => m\n    j{{m: mode}} => 0x1 @ m\n}}\n{}jeq = 0xff\n", rep("nop\n", n.min(3))) },
     Family { name: "type-width-subrule", nesting: false, gen: |_, k| format!("#subruledef r\n{{\n    {{v: u{}}} => v\n}}\n#ruledef\n{{\n    t {{a: r}} => a @ a\n}}\nt 1\n", k) },
 ];
 
